@@ -147,8 +147,9 @@ func symMap(p string, k int) map[int32]string {
 		return map[int32]string{}
 	}
 	m := map[int32]string{}
+	off := rt.NondetChoice(p+"keyoff", len(mapKeys))
 	for i := 0; i < n; i++ {
-		m[mapKeys[i]] = rt.NondetString(p + "val")
+		m[mapKeys[(off+i)%len(mapKeys)]] = rt.NondetString(p + "val")
 	}
 	return m
 }
